@@ -72,6 +72,7 @@ class Arena:
         self.layout, self.watching = layout, watch
         self.watches, self.ops = [], []
         self.degenerate = 0          # tensors that could not take the layout (fell back to contiguous)
+        self.seq = None              # harness/c13_seq.Tracker of a call-sequence cell (operator-state snapshots)
 
     def t(self, x, name, expand="last", requires_grad=False):
         x = x.detach().clone()
@@ -164,6 +165,8 @@ class Arena:
                     hits.append({"arg": name, "effects": ["operator-matrix"]})
             except Exception as ex:
                 hits.append({"arg": name, "effects": ["operator-broken:" + repr(ex)[:60]]})
+        if self.seq is not None:
+            hits += self.seq.effects()
         return hits
 
 
@@ -239,7 +242,16 @@ def run_case(case, layout, seed, profiler=None):
                 sys.setprofile(None)
                 threading.setprofile(None)
         hits = ar.effects()
-    return {"status": "raised" if err else "ok", "error": err, "hits": hits, "degenerate": ar.degenerate}
+    out = {"status": "raised" if err else "ok", "error": err, "hits": hits, "degenerate": ar.degenerate}
+    if ar.seq is not None:
+        tr = ar.seq
+        out["seq"] = {"calls": list(tr.done), "errors": sum(1 for d in tr.done if " !" in d), "tensors": len(tr.tw), "operators": len(tr.ops),
+                      "where": dict(tr.where)}
+        if err and err.startswith("HistoryHit"):
+            for h in hits:
+                h.setdefault("call", tr.done[-1] if tr.done else None)
+                h.setdefault("step", len(tr.done) - 1)
+    return out
 
 
 def localise(case, layout, seed):
@@ -256,7 +268,7 @@ def localise(case, layout, seed):
         for w in ar.watches:
             if w.effects():
                 return True
-        return False
+        return ar.seq is not None and ar.seq.changed()
 
     def tracer(frame, event, arg):
         fn = frame.f_code.co_filename
@@ -264,9 +276,13 @@ def localise(case, layout, seed):
             return None
         if not found and last[0] is not None and changed():
             found.append(last[0])
-        if event in ("line", "call"):
-            if event == "line":
-                last[0] = (fn, frame.f_code.co_qualname.replace(".<locals>", ""), frame.f_lineno)
+        if event == "line":
+            last[0] = (fn, frame.f_code.co_qualname.replace(".<locals>", ""), frame.f_lineno)
+        elif event == "return":
+            # back in the caller: what executes next (e.g. the `+=` of `S += self.f()`) belongs to the caller's current line
+            b = frame.f_back
+            if b is not None and b.f_code.co_filename.startswith(LIBROOT):
+                last[0] = (b.f_code.co_filename, b.f_code.co_qualname.replace(".<locals>", ""), b.f_lineno)
         return tracer
     with warnings.catch_warnings():
         warnings.simplefilter("ignore")
